@@ -517,7 +517,9 @@ class GetDescriptorHandlerBlock(Elaboratable):
                 # Our current position may point out of bounds in case our descriptor length is a multiple
                 # of the maximum packet size. We must send a ZLP now so the host knows the previous
                 # packet was the end of the descriptor.
-                with m.If(position_in_stream >= rom_element_count):
+                # (We compare our full-width start position: our narrower position register would truncate
+                # positions further beyond the end, e.g. when the host keeps reading after the data stage.)
+                with m.If(self.start_position >= rom_element_count):
                     m.next = 'SEND_ZLP'
                 with m.Else():
                     m.next = 'SEND_DESCRIPTOR'
